@@ -298,3 +298,127 @@ v("C04", "silent-sub-elif-to-if-continue", "silent", I,
 v("C04", "silent-xor-reorder-advance", "silent", I,
   "                if a_coord == b_coord:\n                    a_coord, a_payload = _get_next(a)\n                    b_coord, b_payload = _get_next(b)\n\n                elif a_coord < b_coord:\n                    b_default = self.b_fiber._createDefault(addtorank=False)",
   "                if a_coord == b_coord:\n                    b_coord, b_payload = _get_next(b)\n                    a_coord, a_payload = _get_next(a)\n\n                elif a_coord < b_coord:\n                    b_default = self.b_fiber._createDefault(addtorank=False)")
+
+# ---------------------------------------------------------------- C05
+v("C05", "populate-skip-odd", "fire", I,
+  "                yield b_coord, (a_payload, b_payload)\n",
+  "                if b_pos % 2 == 0:\n                    yield b_coord, (a_payload, b_payload)\n", "C05.R1")
+v("C05", "populate-yields-own-pos", "fire", I,
+  "                yield b_coord, (a_payload, b_payload)\n",
+  "                yield b_pos, (a_payload, b_payload)\n", "C05.R1")
+v("C05", "populate-detached-default", "fire", I,
+  "                    a_payload = self.a_fiber._create_payload(b_coord, pos=a_pos)\n",
+  "                    a_payload = self.a_fiber._createDefault(addtorank=False)\n", "C05.R2")
+v("C05", "populate-raw-source", "fire", I,
+  "            b = self.b_fiber.__iter__(tick=False)\n\n            # Track the fiber position",
+  "            b = zip(self.b_fiber.coords, self.b_fiber.payloads)\n\n            # Track the fiber position", "C05.R1")
+v("C05", "populate-remove-unconditional", "fire", I,
+  "                if maybe_remove and (isinstance(a_payload, type(self.a_fiber)) and \\\n                        len(a_payload) == 0) or \\\n                        (not isinstance(a_payload, type(self.a_fiber)) and \\\n                        a_payload == self.a_fiber.getDefault()):",
+  "                if maybe_remove:", "C05.R3")
+v("C05", "populate-no-decrement", "fire", I,
+  "                    a_pos -= 1\n                    self.a_fiber.setSavedPos(a_pos)\n",
+  "                    self.a_fiber.setSavedPos(a_pos)\n", "C05.R3")
+v("C05", "populate-delete-at-apos", "fire", I,
+  "                    index = bisect.bisect_left(self.a_fiber.coords, b_coord)\n",
+  "                    index = a_pos\n", "C05.R3")
+v("C05", "populate-no-rank-pop", "fire", I,
+  "                        popped = self.a_fiber.getOwner().getNextRank().pop()\n",
+  "                        popped = a_payload\n", "C05.R3")
+v("C05", "populate-writes-source", "fire", I,
+  "                yield b_coord, (a_payload, b_payload)\n",
+  "                yield b_coord, (a_payload, b_payload)\n                self.b_fiber.setActive(None)\n", "C05.R4")
+v("C05", "populate-active-from-self", "fire", I,
+  "    self.setActive(other.getActive())\n", "    self.setActive(self.getActive())\n", "C05.R5")
+v("C05", "populate-result-range-from-self", "fire", I,
+  "    fiber = self.fromIterator(lshift_iterator, active_range=other.getActive())",
+  "    fiber = self.fromIterator(lshift_iterator, active_range=self.getActive())", "C05.R5")
+v("C05", "silent-populate-temp-index", "silent", I,
+  "                    index = bisect.bisect_left(self.a_fiber.coords, b_coord)\n                    del self.a_fiber.coords[index]\n                    del self.a_fiber.payloads[index]",
+  "                    where = bisect.bisect_left(self.a_fiber.coords, b_coord)\n                    del self.a_fiber.coords[where]\n                    del self.a_fiber.payloads[where]")
+
+# ---------------------------------------------------------------- C07
+v("C07", "iterRange-end-inclusive", "fire", I,
+  "        if end is not None and coord >= end:\n            break",
+  "        if end is not None and coord > end:\n            break", "C07.R4")
+v("C07", "iterRange-start-exclusive", "fire", I,
+  "        elif start is None or coord >= start:", "        elif start is None or coord > start:", "C07.R4")
+v("C07", "iterRange-literal-zero-default", "fire", I,
+  "            if not Payload.isEmpty(payload, default=self.getDefault()):\n                if start_pos is not None:",
+  "            if not Payload.isEmpty(payload):\n                if start_pos is not None:", "C07.R4")
+v("C07", "iterShape-off-by-one", "fire", I,
+  "    return self.iterRangeShape(0, self.getShape(all_ranks=False), tick=tick)",
+  "    return self.iterRangeShape(1, self.getShape(all_ranks=False), tick=tick)", "C07.R1")
+v("C07", "iterActive-drops-startpos", "fire", I,
+  "    return self.iterRange(*self.getActive(), tick=tick, start_pos=start_pos)",
+  "    return self.iterRange(*self.getActive(), tick=tick)", "C07.R1")
+v("C07", "iterOccupancy-uses-active", "fire", I,
+  "    return self.iterRange(None, None, tick=tick, start_pos=start_pos)",
+  "    return self.iterRange(*self.getActive(), tick=tick, start_pos=start_pos)", "C07.R1")
+v("C07", "iterShapeRef-not-ref", "fire", I,
+  "    return self.iterRangeShapeRef(0, self.getShape(all_ranks=False), tick=tick)",
+  "    return self.iterRangeShape(0, self.getShape(all_ranks=False), tick=tick)", "C07.R1")
+v("C07", "iterRangeShape-inserts", "fire", I,
+  "        p = self.getPayload(c)\n        yield CoordPayload(c, p)",
+  "        p = self.getPayloadRef(c)\n        yield CoordPayload(c, p)", "C07.R2")
+v("C07", "iterRangeShapeRef-no-insert", "fire", I,
+  "        p = self.getPayloadRef(c)\n        yield CoordPayload(c, p)",
+  "        p = self.getPayload(c)\n        yield CoordPayload(c, p)", "C07.R2")
+v("C07", "coiterRef-reads", "fire", I,
+  "                payloads = tuple(fiber.getPayloadRef(c) for fiber in self.fibers_)",
+  "                payloads = tuple(fiber.getPayload(c) for fiber in self.fibers_)", "C07.R2")
+v("C07", "iter-format-swapped", "fire", I,
+  "    if fmt == \"C\":\n        return self.iterOccupancy(tick, start_pos=start_pos)\n    elif fmt == \"U\":",
+  "    if fmt == \"U\":\n        return self.iterOccupancy(tick, start_pos=start_pos)\n    elif fmt == \"C\":", "C07.R3")
+v("C07", "iter-uncompressed-whole-shape", "fire", I,
+  "        return self.iterActiveShape(tick)\n    else:\n        raise ValueError",
+  "        return self.iterShape(tick)\n    else:\n        raise ValueError", "C07.R3")
+v("C07", "and-fromIterator-instance", "fire", I,
+  "    fiber = self.fromIterator(and_iterator, active_range=self.getActive())",
+  "    fiber = self.fromIterator(and_iterator(), active_range=self.getActive())", "C07.R5")
+v("C07", "iterRange-shared-stream", "fire", I,
+  "        iter_ = self.iter()\n        i = 0", "        iter_ = self.iter\n        i = 0", "C07.R5")
+v("C07", "coiterActiveShape-uses-shape", "fire", I,
+  "    return type(fibers[0]).coiterRangeShape(fibers, *fibers[0].getActive())",
+  "    return type(fibers[0]).coiterRangeShape(fibers, 0, fibers[0].getShape(all_ranks=False))", "C07.R1", count=1)
+v("C07", "silent-iterRange-flip", "silent", I,
+  "        if end is not None and coord >= end:\n            break",
+  "        if end is not None and end <= coord:\n            break")
+v("C07", "silent-iterShape-keywords", "silent", I,
+  "    return self.iterRangeShape(0, self.getShape(all_ranks=False), tick=tick)",
+  "    return self.iterRangeShape(start=0, end=self.getShape(all_ranks=False), tick=tick)")
+
+# ---------------------------------------------------------------- C12
+v("C12", "countValues-literal-default", "fire", F,
+  "                count += 1 if not Payload.isEmpty(p, default=self.getDefault()) else 0",
+  "                count += 1 if not Payload.isEmpty(p) else 0", "C12.R1")
+v("C12", "isEmpty-any", "fire", F,
+  "        return all(map(lambda p: Payload.isEmpty(p, default=self.getDefault()), self.payloads))",
+  "        return any(map(lambda p: Payload.isEmpty(p, default=self.getDefault()), self.payloads))", "C12.R2")
+v("C12", "eq-ignores-B", "fire", F,
+  "            if mask == \"B\":\n                return False\n\n            if mask == \"AB\" and ps != po:",
+  "            if mask == \"AB\" and ps != po:", "C12.R3")
+v("C12", "eq-mask-typo", "fire", F,
+  "            if mask == \"A\":\n                return False\n\n            if mask == \"B\":",
+  "            if mask == \"a\":\n                return False\n\n            if mask == \"B\":", "C12.R3")
+v("C12", "eq-payload-compare-eq", "fire", F,
+  "            if mask == \"AB\" and ps != po:\n                return False",
+  "            if mask == \"AB\" and ps == po:\n                return False", "C12.R3")
+v("C12", "eq-over-intersection", "fire", F,
+  "        for c, (mask, ps, po) in self | other:\n            if mask == \"A\":",
+  "        for c, (ps, po) in self & other:\n            mask = \"AB\"\n            if mask == \"A\":", "C12.R3")
+v("C12", "eq-nonfiber-true", "fire", F,
+  "        if not isinstance(other, Fiber):\n            return False\n\n        for c, (mask, ps, po)",
+  "        if not isinstance(other, Fiber):\n            return True\n\n        for c, (mask, ps, po)", "C12.R3")
+v("C12", "tensor-eq-or", "fire", T,
+  "        return rankid_match and fiber_match", "        return rankid_match or fiber_match", "C12.R3")
+v("C12", "nonEmpty-no-recursion", "fire", F,
+  "                if Payload.contains(p, Fiber):\n                    payloads.append(p.nonEmpty())\n                else:\n                    payloads.append(p)\n\n        return self._newFiber(coords, payloads)",
+  "                payloads.append(p)\n\n        return self._newFiber(coords, payloads)", "C12.R2")
+v("C12", "payload-isEmpty-is-identity", "fire", P,
+  "        if p == default:\n            return True", "        if p is default:\n            return True", "C12.R1")
+v("C12", "countValues-no-recursion", "fire", F,
+  "            if recursive and Payload.contains(p, Fiber):\n                count += Payload.get(p).countValues()\n            else:\n                count += 1",
+  "            if False and recursive and Payload.contains(p, Fiber):\n                count += Payload.get(p).countValues()\n            else:\n                count += 1", "C12.R2")
+v("C12", "silent-eq-temp", "silent", F,
+  "        for c, (mask, ps, po) in self | other:\n            if mask == \"A\":",
+  "        both = self | other\n        for c, (mask, ps, po) in both:\n            if mask == \"A\":")
